@@ -391,3 +391,12 @@ impl Rt for Routing {
         "Type2{segments_left {0,1,64,255} x home_address(11)}; Rpl{segments_left(4) x cmpr_i {0,1,15} x cmpr_e {0,8,15} x pad {0,1,15} (4-bit fields) x address bytes of length {0,2,8,16,32}}"
     }
 }
+
+/// Values outside the enumerated domain (see `super::probe`).
+pub fn observations() -> Vec<serde_json::Value> {
+    vec![
+        super::probe::<Hbh>(&Ipv6HopByHopRepr { options: Default::default() }, &()),
+        super::probe::<Opt>(&Ipv6OptionRepr::Unknown { type_: Ipv6OptionType::Unknown(0xc2), length: 2, data: pat(4) }, &()),
+        super::probe::<Frag>(&Ipv6FragmentRepr { frag_offset: 0x2000, more_frags: false, ident: 1 }, &()),
+    ]
+}
